@@ -25,7 +25,13 @@ def run(ctx):
     c = cls[0]
     ctx.fn(c)
     # closure: perturbed copy
-    pq = [l for l, n in c.names.items() if n == 'perturbed_qs']
+    # the closure captures compute_jacobian's joints (parameter 2) and epsilon (parameter 3); upvar fields carry the
+    # captured variable's name, so they are matched against the parent's parameter names, whatever those are
+    jn, en = cj.name_of(2), cj.name_of(3)
+    ctx.require(jn is not None and en is not None and cj.local_ty(3) == 'f64', 'compute_jacobian(robot, joints, epsilon)')
+
+    def is_eps(t):
+        return mir.contains(t, lambda x: x[0] == 'fld' and str(x[2]).lstrip('*&') == en and util.is_param(strip(x[1]), 1))
     ok = False
     found = None
     fwd_calls = [(bi, t) for bi, t in c.calls() if cname(callee_name(t)) == 'Kinematics::forward']
@@ -41,10 +47,10 @@ def run(ctx):
                 i, j, it, v = ws[0]
                 v = strip(v)
                 found = 'q[%s] := %s' % (show(it, maxdepth=3), show(v, maxdepth=4))
-                init_ok = isinstance(A, tuple) and A[0] == 'fld' and 'joints' in A[2]
+                init_ok = isinstance(A, tuple) and A[0] == 'fld' and str(A[2]).lstrip('*&') == jn and util.is_param(strip(A[1]), 1)
                 idx_ok = util.is_param(it, 2)
                 val_ok = isinstance(v, tuple) and v[0] == 'bin' and v[1] == 'Add' and isinstance(strip(v[2]), tuple) and strip(v[2])[0] == 'idx' and \
-                    util.is_param(strip(v[2])[2], 2) and 'epsilon' in show(v[3], maxdepth=3)
+                    util.is_param(strip(v[2])[2], 2) and is_eps(v[3])
                 ok = init_ok and idx_ok and val_ok
     ctx.check(ok, 'R15.1', 'perturbation', c.where(0), c.path, 'column i must be computed at joints with exactly slot i increased by epsilon', found=found, detail=found or '')
     rv = [strip(x[0]) for x in c.return_values()]
@@ -54,12 +60,12 @@ def run(ctx):
         dp, do = strip(rv[0][2]), strip(rv[0][3])
         fp, fo = show(dp, maxdepth=6), show(do, maxdepth=7)
         pert = strip(c.call_term(fwd_calls[0][1], (fwd_calls[0][0], None))) if fwd_calls else None
-        if isinstance(dp, tuple) and dp[0] == 'call' and cname(dp[1]).endswith('::div') and 'epsilon' in show(dp[3], maxdepth=3):
+        if isinstance(dp, tuple) and dp[0] == 'call' and cname(dp[1]).endswith('::div') and is_eps(dp[3]):
             s = strip(dp[2])
             if isinstance(s, tuple) and s[0] == 'call' and cname(s[1]).endswith('::sub'):
                 a, b = strip(s[2]), strip(s[3])
                 okp = mir.contains(a, lambda x: x == pert) and 'current_position' in show(b, maxdepth=4) and 'translation' in show(a, maxdepth=5)
-        if isinstance(do, tuple) and do[0] == 'call' and cname(do[1]).endswith('::div') and 'epsilon' in show(do[3], maxdepth=3):
+        if isinstance(do, tuple) and do[0] == 'call' and cname(do[1]).endswith('::div') and is_eps(do[3]):
             sa = strip(do[2])
             if isinstance(sa, tuple) and sa[0] == 'call' and cname(sa[1]).endswith('::scaled_axis'):
                 w = algebra.word(sa[2])
@@ -127,6 +133,10 @@ def run(ctx):
         m = _unwrap_v6(rv[0])
         if isinstance(m, tuple) and m[0] == 'call' and cname(m[1]).endswith('::mul') and _is_transpose_of_matrix(m[2]):
             pk = _pack_order(m[3])
+            ok = pk == ['t.x', 't.y', 't.z', 'w.x', 'w.y', 'w.z']
+        elif isinstance(rv[0], tuple) and rv[0][0] == 'call' and rv[0][1] == tv.path and util.is_param(rv[0][2], 1):
+            # delegation to the vector entry point (checked above as transpose(J) * F)
+            pk = _pack_order(rv[0][3])
             ok = pk == ['t.x', 't.y', 't.z', 'w.x', 'w.y', 'w.z']
     ctx.check(ok, 'R15.3', 'torques', t.where(0), t.path, 'torques(isometry) must equal torques_from_vector(pack(isometry)) with pack = (t.x,t.y,t.z,w.x,w.y,w.z)', found=pk)
     v = J['velocities']
